@@ -49,6 +49,60 @@ func (x *gtr) sigMethod(s *gscope, recv cellID, name string, c *ast.CallExpr) ([
 	rv := x.store[recv]
 	self := func() ([]*gv, bool) { return []*gv{x.ptrTo(recv)}, true }
 	switch rv.t.k {
+	case gS:
+		switch name {
+		case "Inverse":
+			x.nargs(c, 1)
+			x.setLeaf(recv, gparen(x.ptrArg(s, c.Args[0], gS).term)+"⁻¹")
+			return self()
+		case "SetBytes":
+			x.nargs(c, 1)
+			x.need("frOfBytes", "List UInt8 → S", false)
+			x.setLeaf(recv, "frOfBytes "+gparen(x.bytesArg(s, c.Args[0]).term))
+			return self()
+		case "Marshal":
+			x.nargs(c, 0)
+			x.need("marshalS", "S → List UInt8", false)
+			return []*gv{{t: &gtype{k: gBytes, n: -1}, term: "(marshalS " + gparen(rv.term) + ")"}}, true
+		}
+	case gFS:
+		switch name {
+		case "Bind":
+			// Bind(name, data): the data is appended to what the challenge `name` is bound to. Its error (unknown or already
+			// computed challenge name) is nil here: the names are the literals given to NewTranscript (C15's territory).
+			x.nargs(c, 2)
+			nm := x.eval(s, c.Args[0])
+			if nm.t.k != gStr {
+				reject("%s: Bind name", x.fname)
+			}
+			b := x.bytesArg(s, c.Args[1])
+			nv := *rv
+			nv.strs = append(append([]string(nil), rv.strs...), nm.term+"\x00"+b.term)
+			x.noteWrite(recv)
+			x.store[recv] = &nv
+			return []*gv{{t: &gtype{k: gErr}, static: true, n: 0}}, true
+		case "ComputeChallenge":
+			// the challenge bytes = fsChallenge name (everything bound to that name, in order) (the challenges computed before, in order)
+			x.nargs(c, 1)
+			nm := x.eval(s, c.Args[0])
+			if nm.t.k != gStr {
+				reject("%s: ComputeChallenge name", x.fname)
+			}
+			var items []string
+			for _, it := range rv.strs {
+				if strings.HasPrefix(it, nm.term+"\x00") {
+					items = append(items, strings.TrimPrefix(it, nm.term+"\x00"))
+				}
+			}
+			x.need("fsChallenge", "String → List (List UInt8) → List (List UInt8) → List UInt8", false)
+			n := x.fresh("challenge_" + strings.Trim(nm.term, "\""))
+			x.lines = append(x.lines, fmt.Sprintf("let %s : List UInt8 := fsChallenge %s [%s] [%s]", n, nm.term, strings.Join(items, ", "), strings.Join(rv.strs2, ", ")))
+			nv := *rv
+			nv.strs2 = append(append([]string(nil), rv.strs2...), n)
+			x.noteWrite(recv)
+			x.store[recv] = &nv
+			return []*gv{{t: &gtype{k: gBytes, n: -1}, term: n}, {t: &gtype{k: gErr}, static: true, n: 0}}, true
+		}
 	case gZ:
 		switch name {
 		case "SetBytes":
@@ -162,6 +216,11 @@ func (x *gtr) sigMethod(s *gscope, recv cellID, name string, c *ast.CallExpr) ([
 		}
 	case gG:
 		switch name {
+		case "Marshal":
+			x.nargs(c, 0)
+			x.useG(rv)
+			x.need("marshalG", "G → List UInt8", false)
+			return []*gv{{t: &gtype{k: gBytes, n: -1}, term: "(marshalG " + gparen(rv.term) + ")"}}, true
 		case "JointScalarMultiplicationBase":
 			x.nargs(c, 3)
 			a := x.ptrArg(s, c.Args[0], gG)
@@ -185,6 +244,19 @@ func (x *gtr) sigMethod(s *gscope, recv cellID, name string, c *ast.CallExpr) ([
 func (x *gtr) sigCall(s *gscope, c *ast.CallExpr) ([]*gv, bool) {
 	name := gexpr(c.Fun)
 	switch name {
+	case "fiatshamir.NewTranscript":
+		if len(c.Args) < 1 {
+			reject("%s: NewTranscript arguments", x.fname)
+		}
+		if k := x.eval(s, c.Args[0]).t.k; k != gHash && k != gOpaque {
+			reject("%s: NewTranscript hash argument", x.fname)
+		}
+		for _, a := range c.Args[1:] {
+			if x.eval(s, a).t.k != gStr {
+				reject("%s: NewTranscript challenge name", x.fname)
+			}
+		}
+		return []*gv{x.ptrTo(x.newCell("fs", &gv{t: &gtype{k: gFS}}))}, true
 	case "twistededwards.GetEdwardsCurve", "bandersnatch.GetEdwardsCurve":
 		x.nargs(c, 0)
 		return []*gv{x.edCurveParams()}, true
@@ -211,6 +283,25 @@ func (x *gtr) sigCall(s *gscope, c *ast.CallExpr) ([]*gv, bool) {
 			args = args[1:]
 		} else {
 			x.nargs(c, 2)
+			if dv := x.eval(s, args[0]); dv.t.k == gSlice {
+				// copy on slices of cells: element-wise assignment of the first min(len) elements
+				sv := x.eval(s, args[1])
+				if sv.t.k != gSlice {
+					reject("%s: copy source", x.fname)
+				}
+				n := len(dv.elems)
+				if len(sv.elems) < n {
+					n = len(sv.elems)
+				}
+				vals := make([]*gv, n)
+				for i := 0; i < n; i++ {
+					vals[i] = x.store[sv.elems[i]]
+				}
+				for i := 0; i < n; i++ {
+					x.assign(dv.elems[i], vals[i])
+				}
+				return []*gv{mkInt(n)}, true
+			}
 		}
 		se, ok := args[0].(*ast.SliceExpr)
 		if !ok || se.Low != nil || se.High != nil || se.Max != nil {
@@ -273,6 +364,129 @@ func (x *gtr) edCurveParams() *gv {
 		v.fields = append(v.fields, x.newCell("curveParams_"+f.name, &gv{t: f.t, term: pn}))
 	}
 	return v
+}
+
+// appendCall: append(s, v…) / append(s, t...). Within the capacity the spare cells of s are written (they may be shared with
+// other slices of the same array, as in Go); beyond it a fresh array is allocated and the old elements are copied.
+func (x *gtr) appendCall(s *gscope, c *ast.CallExpr) *gv {
+	if len(c.Args) < 1 {
+		reject("%s: append", x.fname)
+	}
+	sv := x.eval(s, c.Args[0])
+	if sv.t.k != gSlice {
+		reject("%s: append to a non-slice", x.fname)
+	}
+	var vals []*gv
+	if c.Ellipsis.IsValid() {
+		if len(c.Args) != 2 {
+			reject("%s: append(s, t...) arguments", x.fname)
+		}
+		tv := x.eval(s, c.Args[1])
+		if tv.t.k != gSlice {
+			reject("%s: append(s, t...) of a non-slice", x.fname)
+		}
+		for _, e := range tv.elems {
+			vals = append(vals, x.store[e])
+		}
+	} else {
+		for _, a := range c.Args[1:] {
+			vals = append(vals, x.eval(s, a))
+		}
+	}
+	res := &gv{t: sv.t, elems: append([]cellID(nil), sv.elems...), spare: append([]cellID(nil), sv.spare...)}
+	for _, v := range vals {
+		if len(res.spare) > 0 {
+			cell := res.spare[0]
+			res.spare = res.spare[1:]
+			x.assign(cell, v)
+			res.elems = append(res.elems, cell)
+			continue
+		}
+		// reallocation: new cells holding the old values (no other slice can see the new array)
+		var ne []cellID
+		for i, e := range res.elems {
+			ne = append(ne, x.newCell(fmt.Sprintf("ap_%d", i), x.store[e]))
+		}
+		cell := x.zero(fmt.Sprintf("ap_%d", len(ne)), sv.t.elem)
+		x.assignQuiet(cell, v)
+		res.elems = append(ne, cell)
+		res.spare = nil
+	}
+	return res
+}
+
+// inlineFn: a function of the package executed in place (same store: slices alias exactly as in Go). Supported: bodies whose
+// control flow is decided at translation time; the values of the `return` reached are handed back.
+func (x *gtr) inlineFn(s *gscope, fd *ast.FuncDecl, name string, c *ast.CallExpr) []*gv {
+	if x.inlineDepth > 30 {
+		reject("%s: functions executed in place are nested too deeply (%s)", x.fname, name)
+	}
+	sc := &gscope{vars: map[string]cellID{}}
+	var ptypes []*gtype
+	var pnames []string
+	variadic := false
+	for i, fl := range fd.Type.Params.List {
+		t := x.p.typeOf(fl.Type)
+		if _, ok := fl.Type.(*ast.Ellipsis); ok && i == len(fd.Type.Params.List)-1 {
+			variadic = true
+		}
+		for _, nm := range fl.Names {
+			ptypes = append(ptypes, t)
+			pnames = append(pnames, nm.Name)
+		}
+	}
+	np := len(pnames)
+	if (!variadic && len(c.Args) != np) || (variadic && len(c.Args) < np-1) {
+		reject("%s: call of %s with %d arguments", x.fname, name, len(c.Args))
+	}
+	for i := 0; i < np; i++ {
+		var v *gv
+		switch {
+		case variadic && i == np-1 && len(c.Args) == np-1:
+			v = &gv{t: ptypes[i]} // no variadic arguments
+		case variadic && i == np-1 && !(len(c.Args) == np && c.Ellipsis.IsValid()):
+			reject("%s: variadic arguments of %s must be passed as one slice", x.fname, name)
+		default:
+			if id, ok := c.Args[i].(*ast.Ident); ok && id.Name == "nil" && (ptypes[i].k == gSlice || ptypes[i].k == gOpaque) {
+				v = &gv{t: ptypes[i]}
+			} else {
+				v = x.eval(s, c.Args[i])
+			}
+		}
+		if v.t.k != ptypes[i].k {
+			reject("%s: argument %d of %s has an unexpected kind", x.fname, i, name)
+		}
+		// a fresh cell: parameters are copies (slice headers and pointers share what they refer to)
+		sc.vars[pnames[i]] = x.newCell(pnames[i], v)
+		if v.t.k == gStruct || v.t.k == gArray {
+			cell := x.zero(pnames[i], v.t)
+			x.assign(cell, v)
+			sc.vars[pnames[i]] = cell
+		}
+	}
+	var out []*gv
+	got := false
+	savedHook, savedName := x.retHook, x.fname
+	x.retHook = func(vals []*gv) {
+		if got {
+			reject("%s: two returns reached in %s", savedName, name)
+		}
+		got, out = true, vals
+	}
+	x.inlineDepth++
+	x.exec(sc, fd.Body.List, func() string {
+		if fd.Type.Results != nil && len(fd.Type.Results.List) > 0 {
+			reject("%s: %s ends without return", savedName, name)
+		}
+		got = true
+		return ""
+	})
+	x.inlineDepth--
+	x.retHook = savedHook
+	if !got {
+		reject("%s: no return reached in %s", savedName, name)
+	}
+	return out
 }
 
 func (p *gpkg) addHeader(key, text string) {
